@@ -31,7 +31,7 @@ def main():
                 property=a.prop.upper(), kind="no-failing-input-found",
                 correspondence="the check could not run: the code under test raised outside a generated case",
                 traceback=tb[-4000:]))
-            print("VIOLATION property=%s replay=%s no-failing-input-found" % (a.prop.upper(), path))
+            print("\nVIOLATION property=%s replay=%s no-failing-input-found" % (a.prop.upper(), path))
             rc = 1
         else:
             print("INFRA-ERROR: check crashed")
